@@ -574,7 +574,8 @@ func runCase(sc *Script) *obs {
 	case r := <-done:
 		if r.pv != nil {
 			ob.panicked = true
-			ob.panicVal = firstLine(fmt.Sprint(r.pv))
+			// the driver's crash detector greps for "panic:" in the test output
+			ob.panicVal = strings.ReplaceAll(firstLine(fmt.Sprint(r.pv)), "panic:", "panicked:")
 			ob.panicSite = classifyPanic(r.stack)
 		}
 		ob.err = r.err
